@@ -890,6 +890,17 @@ def clone_value_cases():
             return "%s: written forms differ: %r / %r" % (what, str(a), str(b))
         if not (a == b) or not (b == a):
             return "%s: the clone does not compare equal to the original (%r)" % (what, str(a))
+    # placeholder lines (a segment, a link, a GFA2 segment known only from the lines that mention them): the clone is written like the original
+    # (placeholder marker included), is a placeholder too, and compares equal
+    for lines, pick in ((["S\ta\t*", "L\ta\t+\tb\t+\t*"], lambda g: g.segment("b")), (["S\ta\t*", "S\tb\t*", "P\tp\ta+,b+\t*"], lambda g: g.segment("a").dovetails[0]),
+                        (["H\tVN:Z:2.0", "E\te\ta+\tb+\t6\t8$\t0\t2\t*"], lambda g: g.segment("a"))):
+        g = gfapy.Gfa(lines, vlevel=0)
+        v = pick(g)
+        if not v.virtual:
+            return "%r: the picked line is not a placeholder" % (lines,)
+        c = v.clone()
+        if str(c) != str(v) or c.virtual != v.virtual or not (c == v) or c.is_connected():
+            return "clone of the placeholder %r: written %r, virtual %s, equal %s, connected %s" % (str(v), str(c), c.virtual, c == v, c.is_connected())
     # the header of a Gfa whose H lines repeat a tag (the values are kept in one array per tag), for every datatype
     for dt, v1, v2 in (("J", "[1]", "{\"a\": [2]}"), ("i", "1", "2"), ("Z", "a", "b"), ("B", "c,-1", "f,1.5"), ("H", "0A", "0B"), ("f", "1.5", "2.5"), ("A", "x", "y")):
         g = gfapy.Gfa(["H\txx:%s:%s" % (dt, v1), "H\txx:%s:%s" % (dt, v2), "S\ta\t*"])
